@@ -572,6 +572,10 @@ pub fn run_check(check: &Check, tier: &str, all_checks_exe_replay: bool) -> i32 
     let _ = std::fs::create_dir_all(&evdir);
     let evpath = evdir.join(format!("{}.json", check.id));
     std::fs::write(&evpath, serde_json::to_string_pretty(&evidence).unwrap()).expect("write evidence");
+    if tier == "thorough" {
+        // Kept next to the main evidence file, which the next quick run overwrites.
+        let _ = std::fs::write(evdir.join(format!("{}.thorough.json", check.id)), serde_json::to_string_pretty(&evidence).unwrap());
+    }
 
     println!(
         "runs={} nontrivial_distinct={} interleavings={} plans={} aborted={} sim_s={:.1} wall_s={:.1} runs/h={:.0}",
